@@ -52,8 +52,8 @@ Example C24_format_matches_nonvacuous :
     spec_printf ex_fmt ex_args = Some (out, 0) /\ has_dir items = true /\ out <> [].
 Proof. exact printf_matches_nonnum_nonvacuous. Qed.
 
-(* echo [-n] [-e] [-E] ...: for ALL argument lists inside the Spec's domain (option words exactly -n/-e/-E, the
-   last of -e/-E wins; under -e every escape \a \b \e \E \f \n \r \t \v \\ \0NNN \xHH \uHHHH \UHHHHHHHH (scalar
+(* echo [-n] [-e] [-E] ...: for ALL argument lists inside the Spec's domain (option words = a dash followed by one or more of n e E, also combined like -ne; the
+   last of e/E wins; under -e every escape \a \b \e \E \f \n \r \t \v \\ \0NNN \xHH \uHHHH \UHHHHHHHH (scalar
    values), unknown escapes and a trailing backslash; NOT \c, \' \DQUOTE \?, \NNN without the zero) the builtin writes
    the Spec's bytes with the Spec's status *)
 Theorem C24_echo_matches : forall args out st, spec_echo args = Some (out, st) -> echo_builtin args = BOut out st.
@@ -87,11 +87,6 @@ Print Assumptions C24_refuted_char_constant_argument.
 Theorem C24_refuted_zero_flag_on_string : printf_builtin w_zero_flag_on_string <> BOut [32;32;32;97;98;124] 0 /\ (fun a => spec_printf (hd [] a) (tl a)) w_zero_flag_on_string = None.
 Proof. exact refuted_zero_flag_on_string. Qed.
 Print Assumptions C24_refuted_zero_flag_on_string.
-
-(* printf '%5b|' 'x'  -> bash: '    x|' status 0 *)
-Theorem C24_refuted_b_width_ignored : printf_builtin w_b_width_ignored <> BOut [32;32;32;32;120;124] 0 /\ (fun a => spec_printf (hd [] a) (tl a)) w_b_width_ignored = None.
-Proof. exact refuted_b_width_ignored. Qed.
-Print Assumptions C24_refuted_b_width_ignored.
 
 (* printf '%+x' '255'  -> bash: 'ff' status 0 *)
 Theorem C24_refuted_sign_flag_on_unsigned : printf_builtin w_sign_flag_on_unsigned <> BOut [102;102] 0 /\ (fun a => spec_printf (hd [] a) (tl a)) w_sign_flag_on_unsigned = None.
@@ -137,16 +132,6 @@ Print Assumptions C24_refuted_width_counts_runes.
 Theorem C24_refuted_unicode_escape_nonscalar : printf_builtin w_unicode_escape_nonscalar <> BOut [237;160;128] 0 /\ (fun a => spec_printf (hd [] a) (tl a)) w_unicode_escape_nonscalar = None.
 Proof. exact refuted_unicode_escape_nonscalar. Qed.
 Print Assumptions C24_refuted_unicode_escape_nonscalar.
-
-(* printf '\\%d|' '7'  -> bash: '\\7|' status 0 *)
-Theorem C24_refuted_backslash_percent : printf_builtin w_backslash_percent <> BOut [92;55;124] 0 /\ (fun a => spec_printf (hd [] a) (tl a)) w_backslash_percent = None.
-Proof. exact refuted_backslash_percent. Qed.
-Print Assumptions C24_refuted_backslash_percent.
-
-(* echo '-ne' 'a\\n'  -> bash: 'a\n' status 0 *)
-Theorem C24_refuted_echo_combined_options : echo_builtin w_echo_combined_options <> BOut [97;10] 0 /\ spec_echo w_echo_combined_options = None.
-Proof. exact refuted_echo_combined_options. Qed.
-Print Assumptions C24_refuted_echo_combined_options.
 
 (* echo '-e' '\\101'  -> bash: '\\101\n' status 0 *)
 Theorem C24_refuted_echo_bare_octal : echo_builtin w_echo_bare_octal <> BOut [92;49;48;49;10] 0 /\ spec_echo w_echo_bare_octal = None.
